@@ -3,20 +3,26 @@
  *
  * usage: proctree <description> <readyfile> [lifetime-seconds]
  *
- * description:  node  := disp [ 'e' code ] [ 't' millis ] '(' node* ')'
+ * description:  node  := disp [ flag ] [ 'e' code ] [ 't' millis ] '(' node* ')'
  *               disp  := 'd'   SIGTERM keeps its default disposition
  *                      | 'i'   SIGTERM is ignored
+ *               flag  := 'S'   the process stops itself (SIGSTOP) once it has
+ *                              reported: signals but SIGKILL stay pending
+ *                      | 'N'   the process calls setsid() before it forks its
+ *                              children: it and its subtree LEAVE the group
  *               e<n>  := the process exits with status n when it gets SIGUSR1
  *                        ("exits on its own", driven by the scheduler)
  *               t<ms> := the process exits with its status (0 without e) after
- *                        ms milliseconds (undriven early exit, for race runs)
+ *                        ms milliseconds (undriven early exit, for race runs and
+ *                        the escalation-boundary runs); it says so in the ready
+ *                        file like an 'e' node
  *
  * The calling process becomes node 0; nodes are numbered in preorder.  Every
  * process sets its dispositions, forks its children one after the other,
  * appends "<index> <pid>\n" to <readyfile> once all its children exist and
  * then sleeps; an 'e' node appends "x <index>\n" when it exits on SIGUSR1.
- * No process of the tree changes its process group, so the whole tree stays
- * in the group of node 0.  Children are auto-reaped
+ * No process of the tree changes its process group (but an 'N' node, on
+ * purpose), so the whole tree stays in the group of node 0.  Children are auto-reaped
  * (SIGCHLD ignored).  As a safety net every process arms alarm(lifetime)
  * (default 60 s, SIGALRM default action) so nothing is ever left behind.
  */
@@ -33,14 +39,17 @@
 #include <unistd.h>
 
 #define MAXNODES	256
+#define MAXKIDS		128	/* fan-out classes 15/16/17 ... 63/64/65 */
 
 struct node {
 	int	ignore;
+	int	stopped;	/* raise(SIGSTOP) after reporting */
+	int	newsession;	/* setsid() before forking */
 	int	early;		/* exits on SIGUSR1 */
 	int	code;
 	long	timed;		/* >= 0: exits after that many ms */
 	int	nkids;
-	int	kids[16];
+	int	kids[MAXKIDS];
 };
 
 static struct node	nodes[MAXNODES];
@@ -86,6 +95,13 @@ parse_node(void)
 	else if (*input != 'd')
 		die("disposition expected");
 	input++;
+	if (*input == 'S') {
+		n->stopped = 1;
+		input++;
+	} else if (*input == 'N') {
+		n->newsession = 1;
+		input++;
+	}
 	if (*input == 'e') {
 		input++;
 		n->early = 1;
@@ -102,7 +118,7 @@ parse_node(void)
 
 		if (*input == '\0')
 			die(") expected");
-		if (n->nkids >= 16)
+		if (n->nkids >= MAXKIDS)
 			die("too many children");
 		k = parse_node();
 		/* nodes[] may not move, so n is still valid */
@@ -137,12 +153,14 @@ run_node(int idx, const char *ready, unsigned int lifetime)
 	if (exitfd != -1)
 		close(exitfd);
 	exitfd = -1;
-	if (n->early) {
+	if (n->early || n->timed >= 0) {
 		exitfd = open(ready, O_WRONLY | O_APPEND | O_CREAT, 0644);
 		exitlen = (size_t)snprintf(exitline, sizeof(exitline), "x %d\n", idx);
 	}
 	signal(SIGUSR1, n->early ? onusr1 : SIG_IGN);
 	alarm(lifetime);
+	if (n->newsession && setsid() == -1)
+		die("setsid");
 
 	for (i = 0; i < n->nkids; i++) {
 		pid_t pid = fork();
@@ -163,11 +181,16 @@ run_node(int idx, const char *ready, unsigned int lifetime)
 		die("write ready file");
 	close(fd);
 
+	if (n->stopped)
+		raise(SIGSTOP);
+
 	if (n->timed >= 0) {
 		ts.tv_sec = n->timed / 1000;
 		ts.tv_nsec = (n->timed % 1000) * 1000000L;
 		while (nanosleep(&ts, &ts) == -1 && errno == EINTR)
 			continue;
+		if (exitfd != -1 && write(exitfd, exitline, exitlen) == -1)
+			_exit(97);
 		_exit(n->code);
 	}
 	for (;;)
